@@ -1,7 +1,7 @@
 (* Extraction entry point for C04: handler table model (Model/Trie.v, Model/Dispatch.v) and the
    specification machine (Spec/DispatchSpec.v). *)
 From NDN Require Import Base.Prelude Base.Sexp Base.Text Model.TlvVar Model.Name Model.Trie Model.Dispatch
-  Spec.DispatchSpec.
+  Spec.DispatchSpec Model.DispatchV1 Spec.DispatchV1Spec.
 From Coq Require Extraction ExtrOcamlBasic.
 Local Open Scope N_scope.
 
@@ -103,6 +103,24 @@ Definition s_sobs (o : sobs) : sexp :=
   | SoNoSuchCall => SList [SNum 8]
   end.
 
+(* registration API of the legacy front-end: the events above, plus
+     model  (7 name h? v? raw sig) table step of register | (8 name) table step of unregister
+     spec   (7 p h?) register | (8 p) unregister *)
+Definition as_vop (s : sexp) : option vop :=
+  match s with
+  | SList [SNum 7; k; h; v; a; b] =>
+      odo k <- as_name k ;; odo h <- as_opt as_num h ;; odo v <- as_opt as_num v ;;
+      odo a <- as_bool a ;; odo b <- as_bool b ;; Some (VRegister k h v (a, b))
+  | SList [SNum 8; k] => odo k <- as_name k ;; Some (VUnregister k)
+  | _ => option_map VBase (as_op s)
+  end.
+Definition as_svop (s : sexp) : option svop :=
+  match s with
+  | SList [SNum 7; k; h] => odo k <- as_name k ;; odo h <- as_opt as_num h ;; Some (SRegister k h)
+  | SList [SNum 8; k] => odo k <- as_name k ;; Some (SUnregister k)
+  | _ => option_map SVBase (as_sop s)
+  end.
+
 Definition run (req : sexp) : sexp :=
   match req with
   (* model: run a history from the empty table *)
@@ -126,6 +144,14 @@ Definition run (req : sexp) : sexp :=
       or_bad (odo d <- as_num d ;; odo t <- as_num t ;; odo r <- as_bool r ;;
               Some (s_res (fun p => SList [s_bool (fst p); s_retval (snd p)]) (reply_closure d t r)))
   | SList [SNum 6] => SNum DEFAULT_LIFETIME
+  (* model / specification: a history with register / unregister events *)
+  | SList [SNum 7; fe; ops] =>
+      or_bad (odo fe <- as_fe fe ;; odo ops <- as_list_of as_vop ops ;;
+              let '(s, obs) := vrun_ops fe ops in
+              Some (SList [s_list s_obs obs; s_state s]))
+  | SList [SNum 8; fe; ops] =>
+      or_bad (odo fe <- as_fe fe ;; odo ops <- as_list_of as_svop ops ;;
+              let '(_, obs) := svrun fe ops in Some (s_list s_sobs obs))
   | _ => s_bad_request
   end.
 
